@@ -357,8 +357,8 @@ PLANS = {
                 quick=dict(n=3, m=3, variants=3, generic=1, corners=0, rand=30, nderive=2),
                 thorough=dict(n=4, m=4, variants=2, generic=1, corners=1, rand=300, nderive=2)),
     "C18": dict(rel=rel_C18, family="neutral", want={"np": True, "twin": True, "fn": fns((0,))},
-                quick=dict(n=3, m=3, variants=3, generic=1, corners=2, rand=0),
-                thorough=dict(n=4, m=4, variants=4, generic=2, corners=4, rand=0)),
+                quick=dict(n=3, m=3, variants=3, generic=1, corners=3, rand=0),
+                thorough=dict(n=4, m=4, variants=4, generic=2, corners=5, rand=0)),
     "C16": dict(rel=rel_C16, want=lambda c: {"np": False, "fn": param_fns(c, levels=(0, 2), more_out=(False, True), nsets=3)
                                              + fns((0,), more_out=(True,), syms=("SX" if sum(c["id"].encode()) % 2 else "MX",))},
                 quick=dict(n=3, m=3, variants=3, generic=1, corners=1, rand=30),
